@@ -62,7 +62,14 @@ typedef boost::property_tree::ptree ptree;
 const int NTRIPLES = 36;
 
 // ------------------------------------------------------------------ problems
-struct problem { std::shared_ptr<vr::crsd> A; std::vector<double> rhs; };
+struct problem { std::shared_ptr<vr::crsd> A, A2; std::vector<double> rhs; };
+// the matrix handed to amg::rebuild(): same pattern, diagonal entries + 1
+inline std::shared_ptr<vr::crsd> perturbed(const vr::crsd &A) {
+    auto P = std::make_shared<vr::crsd>(A);
+    for (ptrdiff_t i = 0; i < (ptrdiff_t)P->nrows; ++i)
+        for (ptrdiff_t j = P->ptr[i]; j < P->ptr[i + 1]; ++j) if (P->col[j] == i) P->val[j] += 1.0;
+    return P;
+}
 inline int nproblems() { return vr::thorough() ? 4 : 2; }
 inline problem make_problem(int id) {
     vr::rng g(vr::env_seed() * 1000003ull + 17 * id + 5);
@@ -88,6 +95,7 @@ inline problem make_problem(int id) {
     }
     p.rhs.resize(p.A->nrows);
     for (auto &v : p.rhs) v = g.range(-4, 4);
+    p.A2 = perturbed(*p.A);
     return p;
 }
 
@@ -147,11 +155,15 @@ template <class Prm> void configure(Prm &prm, ptree &t, int cfg) {
 struct result {
     bool threw = false; std::string exc;
     long long it = -1, bytes = -1; vr::digest res, x, px, txt;
+    // the history  build -> rebuild(A2) -> solve(A2) / apply  on the same object
+    bool rthrew = false; long long rit = -1; vr::digest rres, rx, rpx;
     void json(vr::obj &o, const std::string &sfx) const {
         o.b("threw" + sfx, threw).str("exc" + sfx, exc).i("it" + sfx, it)
          .i("res_lo" + sfx, res.lo()).i("res_hi" + sfx, res.hi())
          .i("x_lo" + sfx, x.lo()).i("x_hi" + sfx, x.hi()).i("px_lo" + sfx, px.lo()).i("px_hi" + sfx, px.hi())
-         .i("bytes" + sfx, bytes).i("txt_lo" + sfx, txt.lo()).i("txt_hi" + sfx, txt.hi());
+         .i("bytes" + sfx, bytes).i("txt_lo" + sfx, txt.lo()).i("txt_hi" + sfx, txt.hi())
+         .b("rthrew" + sfx, rthrew).i("rit" + sfx, rit).i("rres_lo" + sfx, rres.lo()).i("rres_hi" + sfx, rres.hi())
+         .i("rx_lo" + sfx, rx.lo()).i("rx_hi" + sfx, rx.hi()).i("rpx_lo" + sfx, rpx.lo()).i("rpx_hi" + sfx, rpx.hi());
     }
     // the report text (operator<<) and the memory footprint (bytes()) go through the wrappers' switches too
     template <class Obj> void describe(const Obj &o) {
@@ -173,6 +185,15 @@ template <class Solver, class Prm> result run_solver(const problem &pb, const Pr
         solve.precond().apply(f, y);
         r.px.vec(y.data(), y.size());
         r.describe(solve);
+        try {
+            solve.precond().rebuild(*pb.A2);
+            std::vector<double> x2(pb.rhs.size(), 0.0);
+            std::tie(it, res) = solve(*pb.A2, pb.rhs, x2);
+            r.rit = (long long)it; r.rres.pod(res); r.rx.vec(x2.data(), x2.size());
+            amgcl::backend::numa_vector<double> y2(pb.rhs.size());
+            solve.precond().apply(f, y2);
+            r.rpx.vec(y2.data(), y2.size());
+        } catch (const std::exception &e) { r.rthrew = true; r.exc = std::string("rebuild: ") + e.what(); }
     } catch (const std::exception &e) { r.threw = true; r.exc = e.what(); }
     return r;
 }
